@@ -74,7 +74,7 @@ fn match_mut(m: &mut Match, f: &mut dyn FnMut(StringStyle, &mut Vec<StrSegment>)
 
 fn term_mut(t: &mut Term, f: &mut dyn FnMut(StringStyle, &mut Vec<StrSegment>)) {
     match t {
-        Term::String(style, segs) => {
+        Term::String(style, segs, ..) => {
             for s in segs.iter_mut() {
                 if let StrSegment::Hole(e) = s {
                     expr_mut(e, f);
@@ -170,7 +170,7 @@ fn sab_term(t: &mut Term) {
                 }
             }
         }
-        Term::String(_, segs) => {
+        Term::String(_, segs, ..) => {
             for s in segs.iter_mut() {
                 if let StrSegment::Hole(e) = s {
                     sab_expr(e);
@@ -243,7 +243,7 @@ fn v_match(m: &Match, fm: &mut dyn FnMut(&Match)) {
 fn v_term(t: &Term, ft: &mut dyn FnMut(&Term), fm: &mut dyn FnMut(&Match)) {
     ft(t);
     match t {
-        Term::String(_, segs) => {
+        Term::String(_, segs, ..) => {
             for s in segs {
                 if let StrSegment::Hole(e) = s {
                     v_expr(e, ft, fm);
@@ -268,4 +268,88 @@ fn v_term(t: &Term, ft: &mut dyn FnMut(&Term), fm: &mut dyn FnMut(&Match)) {
         Term::Select(Some(chains), _) => chains.iter().for_each(|c| v_chain(c, ft, fm)),
         _ => {}
     }
+}
+
+/// Shapes of interpolation holes that the formatter cannot lay out on the string's line:
+/// (a hole holding a sequence of several steps, a hole holding a `"""` literal).
+pub fn hole_shapes(p: &Program) -> (bool, bool) {
+    fn seq_has_multi(seq: &Sequence, several: &mut bool, multi: &mut bool) {
+        for c in &seq.chains {
+            for t in &c.terms {
+                term_has(t, several, multi, true);
+            }
+        }
+    }
+    fn expr_in_hole(e: &Expression, several: &mut bool, multi: &mut bool) {
+        for b in &e.branches {
+            if b.condition.chains.len() > 1 || b.consequence.as_ref().is_some_and(|c| c.chains.len() > 1) {
+                *several = true;
+            }
+            seq_has_multi(&b.condition, several, multi);
+            if let Some(c) = &b.consequence {
+                seq_has_multi(c, several, multi);
+            }
+        }
+    }
+    fn term_has(t: &Term, several: &mut bool, multi: &mut bool, in_hole: bool) {
+        match t {
+            Term::String(style, segs, ..) => {
+                if in_hole && *style == StringStyle::Multi {
+                    *multi = true;
+                }
+                for s in segs {
+                    if let StrSegment::Hole(e) = s {
+                        expr_in_hole(e, several, multi);
+                    }
+                }
+            }
+            Term::Tuple(tp) => {
+                for f in &tp.fields {
+                    if let FieldValue::Chain(c) = &f.value {
+                        for t in &c.terms {
+                            term_has(t, several, multi, in_hole);
+                        }
+                    }
+                }
+            }
+            Term::Block(e) => block_has(e, several, multi, in_hole),
+            Term::Function(f) => {
+                if let Some(b) = &f.body {
+                    block_has(b, several, multi, in_hole)
+                }
+            }
+            Term::Spawn(inner, _) => term_has(inner, several, multi, in_hole),
+            Term::Select(Some(chains), _) => {
+                for c in chains {
+                    for t in &c.terms {
+                        term_has(t, several, multi, in_hole);
+                    }
+                }
+            }
+            _ => {}
+        }
+    }
+    fn block_has(e: &Expression, several: &mut bool, multi: &mut bool, in_hole: bool) {
+        for b in &e.branches {
+            if in_hole && (b.condition.chains.len() > 1 || b.consequence.as_ref().is_some_and(|c| c.chains.len() > 1)) {
+                *several = true;
+            }
+            for c in b.condition.chains.iter().chain(b.consequence.iter().flat_map(|s| s.chains.iter())) {
+                for t in &c.terms {
+                    term_has(t, several, multi, in_hole);
+                }
+            }
+        }
+    }
+    let (mut several, mut multi) = (false, false);
+    for s in &p.statements {
+        if let Statement::Expression(seq) = s {
+            for c in &seq.chains {
+                for t in &c.terms {
+                    term_has(t, &mut several, &mut multi, false);
+                }
+            }
+        }
+    }
+    (several, multi)
 }
